@@ -486,6 +486,11 @@ func generateOverlay(pk *packages.Package, fset *token.FileSet, cf *ContractFile
 						cl.Locals = append(cl.Locals, LocalRef{Name: "loopk", ParamIdx: -1, Type: "int"})
 						continue
 					}
+					if loopiRe.MatchString(id) {
+						ps = append(ps, id+" int")
+						cl.Locals = append(cl.Locals, LocalRef{Name: id, ParamIdx: -1, Type: "int"})
+						continue
+					}
 					if id == "loopx" {
 						rs, ok := lp.(*ast.RangeStmt)
 						if !ok {
@@ -634,7 +639,8 @@ func desugarStmts(s string, ot func(string) (string, error)) (string, error) {
 	return desugarGroups(s, ot)
 }
 
-var pseudoRe = regexp.MustCompile(`\bloopk\b`)
+var pseudoRe = regexp.MustCompile(`\bloop[ki][0-9]*\b`)
+var loopiRe = regexp.MustCompile(`^loopi[1-9]$`)
 
 func oldTyper(pk *packages.Package, fset *token.FileSet, pos token.Pos, qual types.Qualifier) func(string) (string, error) {
 	return func(arg string) (string, error) {
